@@ -408,4 +408,43 @@ def updateWrapper (f : Func) (injected : List Name) (expected : List (Name × Op
 /-- `wraps(f)(wrapper)` -/
 def wraps (f : Func) : Except Err Func := updateWrapper f [] []
 
+/-! stacks of decorators -/
+
+/-- `wraps` applied again on top of `w` (plain), `n` more times; newest first -/
+def stackUp (o : Opts) : Nat → List Func → Except Err (List Func)
+  | 0, ws => .ok ws
+  | _, [] => .ok []
+  | n + 1, w :: ws =>
+    match updateWrapper w [] [] o with
+    | .ok w' => stackUp o n (w' :: w :: ws)
+    | .error e => .error e
+
+/-- a call travelling down a stack of wrappers (each user wrapper calls the next function with
+    what it received); result = what the innermost user wrapper receives -/
+def travel : List Func → Call → Option Call
+  | [], c => some c
+  | w :: ws, c => match callWrapper w c with
+    | some c' => travel ws c'
+    | none => none
+
+/-! names a request removes and then adds again.  The statement says nothing about the annotation
+    such a parameter ends up with (the code as it is keeps the annotation the removed parameter
+    had, because `remove_arg` leaves `annotations` alone), so the correspondence does not compare
+    it: the driver prints `*` for these names (`Driver.showAnns`). -/
+
+def BOp.adds (z : Name) : BOp → Bool
+  | .add z' _ _ => z' == z
+  | .remove _ => false
+
+/-- the names a builder history removes and adds again later on -/
+def readded : List BOp → List Name
+  | [] => []
+  | .remove x :: ops => if ops.any (BOp.adds x) then x :: readded ops else readded ops
+  | .add _ _ _ :: ops => readded ops
+
+/-- the same for `update_wrapper(injected, expected)`: every `injected` name comes before every
+    `expected` one -/
+def readdedW (injected : List Name) (expected : List (Name × Option Val)) : List Name :=
+  injected.filter (fun x => (expected.map Prod.fst).contains x)
+
 end C13
